@@ -29,3 +29,9 @@ M("sfread-lowest-f-in-main", "main.py", "        f0_old = copy.copy(f0)\n", "   
 M("sfread-cached-g", "main.py", "        f0_old = copy.copy(f0)\n", "        f0_old = copy.copy(f0)\n        _stale = sf.g\n", ["SFREAD"])
 M("sfread-flag-write", "main.py", "        f0_old = copy.copy(f0)\n", "        f0_old = copy.copy(f0)\n        sf.f_updated = False\n", ["SFREAD"])
 Q("sfread-counter-read", "main.py", "        f0_old = copy.copy(f0)\n", "        f0_old = copy.copy(f0)\n        _n_before = sf.nfev\n", ["SFREAD"])
+
+# ---- EVALPT (round 4: hand-made finite differences next to approx_derivative)
+M("evalpt-probe-next-to-x", "scalar_function.py", "            self.f = fun_wrapped(self.x)\n",
+  "            self.f = fun_wrapped(self.x)\n            _probe = fun_wrapped(self.x + 1e-8)\n", ["EVALPT"], canary=True)
+M("evalpt-wrapper-stored", "scalar_function.py", "        self._update_fun_impl = update_fun\n",
+  "        self._update_fun_impl = update_fun\n        self._raw_eval = fun_wrapped\n", ["EVALPT"])
